@@ -437,6 +437,8 @@ Definition i_alog_init_orig := mkscn [] (alog_init_with chan_init_default_orig) 
 Definition i_alog_init := mkscn [] (alog_init_with chan_init_default) alog_destroy [0; 3] true false false [] false.
 Definition i_alog_log_orig := mkscn [call (alog_init_with chan_init_default)] alog_log_orig alog_destroy [0; 3] false false true [] false.
 Definition i_alog_log := mkscn [call (alog_init_with chan_init_default)] alog_log alog_destroy [0; 3] false false true [] false.
+(* no attached handler accepts the level: muggle_async_logger_log returns before it acquires anything *)
+Definition i_alog_log_filtered := mkscn [call (alog_init_with chan_init_default)] [RO] alog_destroy [0; 3] false false true [] false.
 
 (* ================= boundary contents on the success path =================
    Containers pre-built with caller-owned values (200.. = blocks allocated by the caller and
@@ -553,7 +555,7 @@ Definition inst_table : list (nat * scn) :=
     (69, i_ll_content_head); (70, i_ll_content_pool_full); (71, i_queue_content); (72, i_queue_content_pool_full);
     (73, i_array_list_content_index0_full); (74, i_array_list_content_index0_grow); (75, i_heap_content_grow);
     (76, i_stack_content_full);
-    (77, i_log_file_handler); (78, i_log_rotate_handler); (79, i_log_rotate_write);
+    (77, i_log_file_handler); (78, i_log_rotate_handler); (79, i_log_rotate_write); (80, i_alog_log_filtered);
     (* transcriptions of the unchanged (defective) code *)
     (100, i_chan_mutex_orig); (103, i_ma_ring_orig); (104, i_dbuf_orig); (109, i_sowr_orig);
     (110, i_ts_orig); (118, i_avl_init_orig); (121, i_ht_init_orig); (126, i_ll_init_orig);
